@@ -26,22 +26,7 @@ func TestC01(t *testing.T) {
 		// expression interpreter) does not apply as long as no expression runs
 		bigNums := (s.Attrs[s.Hash] == "N" || s.Range != "" && s.Attrs[s.Range] == "N") && rapid.Bool().Draw(rt, "bigNumberKeys")
 		if bigNums {
-			bigPool := []string{"9007199254740993", "9007199254740992", "9007199254740994", "12345678901234567890123456789012345678", "12345678901234567890123456789012345679",
-				"0.1234567890123456789", "0.1234567890123456788", "-9007199254740993", "18446744073709551616", "18446744073709551617"}
-			seen := map[string]bool{}
-			var keys []model.Item
-			for _, k := range g.keys {
-				for _, a := range s.KeyAttrs() {
-					if s.Attrs[a] == "N" {
-						k[a] = model.Num(rapid.SampledFrom(bigPool).Draw(rt, "bigKeyPart"))
-					}
-				}
-				if c := model.CanonItem(k); !seen[c] {
-					seen[c] = true
-					keys = append(keys, k)
-				}
-			}
-			g.keys = keys
+			g.useBigNumberKeys(rt)
 		}
 		w.pool[s.Table] = g.keys
 		g.failClasses = []string{"index-key-type-put", "index-key-type-update", "wrong-typed-key", "missing-key-attr", "oversized-index-key", "malformed-update", "invalid-return-values"}
